@@ -67,12 +67,10 @@ func ValidateCodeSigningCertChain(certChain []*x509.Certificate, signingTime *ti
 		} else {
 			// This is to avoid extra/redundant multiple root cert at the end
 			// of certificate-chain
-			selfSigned, selfSignedError := isSelfSigned(cert)
-			// not checking selfSignedError != nil here because we expect
-			// a non-nil err. For a non-root certificate, it shouldn't be
-			// self-signed, hence CheckSignatureFrom would return a non-nil
-			// error.
-			if selfSignedError == nil && selfSigned {
+			// isSelfSigned cannot be used here: CheckSignatureFrom rejects
+			// any certificate that is not a CA, so a self-signed leaf
+			// certificate would go unnoticed.
+			if hasSelfSignature(cert) {
 				if i == 0 {
 					return fmt.Errorf("leaf certificate with subject %q is self-signed. Certificate chain must not contain self-signed leaf certificate", cert.Subject)
 				}
